@@ -88,7 +88,9 @@ func (e *c05Env) setRetryBase(v *vCore, base time.Duration) {
 	}
 	// in-package knob: the retry base of the revocation worker (default 10s)
 	v.Core.expirationRevokeRetryBase = base
-	if v.Core.expiration != nil {
+	// A manager created after the knob was set already carries the value; writing the field of a
+	// running manager again would race with its revocation workers (seen by the race detector).
+	if v.Core.expiration != nil && v.Core.expiration.revokeRetryBase != base {
 		v.Core.expiration.revokeRetryBase = base
 	}
 }
